@@ -2,6 +2,7 @@ package c11
 
 import (
 	"fmt"
+	"reflect"
 	"strings"
 	"unicode/utf16"
 
@@ -30,6 +31,7 @@ const (
 	retNum                   // a number
 	retStr                   // a string
 	retObj                   // a fresh object {"k":1,"a":2}
+	retThrow                 // throws an Error object whose name is "Boom"
 	retTarget                // the object marked as target in the value description (the SAME object every time)
 )
 
@@ -81,6 +83,8 @@ var behaviours = []behaviour{
 	{"toUndef", func(c bctx) ret { return ret{kind: retUndef} }},
 	{"echoKey", func(c bctx) ret { return ret{kind: retStr, s: "key=" + c.key} }},
 	{"toObj", func(c bctx) ret { return ret{kind: retObj} }},
+	{"toInf", func(c bctx) ret { return ret{kind: retNum, n: inf} }},
+	{"toThrow", func(c bctx) ret { return ret{kind: retThrow} }},
 	{"toTarget", func(c bctx) ret { return ret{kind: retTarget} }},
 	{"replTarget", func(c bctx) ret {
 		if c.key == "" {
@@ -89,6 +93,9 @@ var behaviours = []behaviour{
 		return ret{kind: retTarget}
 	}},
 }
+
+// thisMode: callbacks that receive the value as this (toJSON(key), valueOf(), toString()).
+func thisMode(mode string) bool { return mode == "toJSON" || mode == "valueOf" || mode == "toString" }
 
 func behaviourByName(name string) *behaviour {
 	for i := range behaviours {
@@ -121,7 +128,9 @@ func typeOfModel(v rj.Value) string {
 // logEntry is what both sides record per callback invocation. The holder of a
 // reviver call is logged by class only (its content at call time depends on the
 // enumeration order of siblings, which ES5 leaves to the implementation).
-func logEntry(mode string, key rj.Value, val rj.Value, holder rj.Value) string {
+// got is holder.[[Get]](key) as the side that logs sees it (read on the real
+// object, prototype chain included).
+func logEntry(mode string, key rj.Value, val rj.Value, holder rj.Value, got rj.Value) string {
 	h := "-"
 	if holder.Kind == rj.Object {
 		if mode == "replacer" {
@@ -129,11 +138,11 @@ func logEntry(mode string, key rj.Value, val rj.Value, holder rj.Value) string {
 		} else {
 			// reviver: class of the holder and whether holder[key] is the value passed
 			h = holder.O.Class
-			if key.Kind == rj.String && rj.Canon(holder.O.Get(rj.Key(key.S)), true) != rj.Canon(val, true) {
+			if key.Kind == rj.String && rj.Canon(got, true) != rj.Canon(val, true) {
 				h += "(holder[key] is not the value)"
 			}
 		}
-	} else if mode != "toJSON" {
+	} else if !thisMode(mode) {
 		h = rj.Canon(holder, true)
 	}
 	return mode + "(" + rj.Canon(key, true) + "," + rj.Canon(val, true) + ")@" + h
@@ -157,12 +166,12 @@ func (h *hostModel) fn(mode, name string) *rj.Obj {
 	b := behaviourByName(name)
 	return rj.NewFunction(func(this rj.Value, args []rj.Value) rj.Value {
 		var key, val, holder rj.Value
-		if mode == "toJSON" {
+		if thisMode(mode) {
 			key, val = arg(args, 0), this
 		} else {
 			key, val, holder = arg(args, 0), arg(args, 1), this
 		}
-		h.log = append(h.log, logEntry(mode, key, val, holder))
+		h.log = append(h.log, logEntry(mode, key, val, holder, modelGet(holder, key)))
 		r := b.f(bctx{key: keyString(key), typ: typeOfModel(val), num: val.N})
 		switch r.kind {
 		case retUndef:
@@ -176,6 +185,8 @@ func (h *hostModel) fn(mode, name string) *rj.Obj {
 			o.Put(rj.K("k"), rj.Num(1))
 			o.Put(rj.K("a"), rj.Num(2))
 			return rj.ObjV(o)
+		case retThrow:
+			panic(&rj.Throw{Class: "Boom", Msg: "thrown by callback"})
 		case retTarget:
 			if h.target == nil {
 				return rj.Undef
@@ -204,6 +215,7 @@ type drv struct {
 	cache     map[string]otto.Value
 	fired     bool       // see hostModel.fired
 	del       otto.Value // function(o, k) { delete o[k] }
+	lockFn    otto.Value // function(o, k) { Object.defineProperty(o, k, {... non-writable, non-configurable}) }
 }
 
 func newDrv() *drv {
@@ -214,8 +226,8 @@ func newDrv() *drv {
 	}
 	d.parse, _ = j.Get("parse")
 	d.stringify, _ = j.Get("stringify")
-	for _, mode := range []string{"reviver", "replacer", "toJSON"} {
-		prefix := map[string]string{"reviver": "__rv_", "replacer": "__rp_", "toJSON": "__tj_"}[mode]
+	for _, mode := range []string{"reviver", "replacer", "toJSON", "valueOf", "toString"} {
+		prefix := map[string]string{"reviver": "__rv_", "replacer": "__rp_", "toJSON": "__tj_", "valueOf": "__cv_valueOf_", "toString": "__cv_toString_"}[mode]
 		for i := range behaviours {
 			b := &behaviours[i]
 			if err := d.vm.Set(prefix+b.name, d.host(mode, b)); err != nil {
@@ -231,14 +243,14 @@ func (d *drv) host(mode string, b *behaviour) func(call otto.FunctionCall) otto.
 	return func(call otto.FunctionCall) otto.Value {
 		var keyV, valV otto.Value
 		var key, val, holder rj.Value
-		if mode == "toJSON" {
+		if thisMode(mode) {
 			keyV, valV = call.Argument(0), call.This
 		} else {
 			keyV, valV = call.Argument(0), call.Argument(1)
 			holder = fromOtto(call.This, 0)
 		}
 		key, val = fromOtto(keyV, 0), fromOtto(valV, 0)
-		d.log = append(d.log, logEntry(mode, key, val, holder))
+		d.log = append(d.log, logEntry(mode, key, val, holder, ottoGet(call.This, keyV, mode)))
 		r := b.f(bctx{key: keyString(key), typ: typeOfModel(val), num: val.N})
 		switch r.kind {
 		case retUndef:
@@ -255,6 +267,8 @@ func (d *drv) host(mode string, b *behaviour) func(call otto.FunctionCall) otto.
 				panic(err)
 			}
 			return o.Value()
+		case retThrow:
+			panic(d.vm.MakeCustomError("Boom", "thrown by callback"))
 		case retTarget:
 			t, _ := d.vm.Get("__target")
 			return t
@@ -288,20 +302,13 @@ func fromOtto(v otto.Value, depth int) rj.Value {
 			return rj.ObjV(&rj.Obj{Class: class, Props: map[rj.S16]*rj.Prop{}})
 		}
 		switch class {
-		case "Number":
-			f, _ := v.ToFloat()
-			return rj.ObjV(rj.NewWrapper(rj.Num(f)))
-		case "String":
-			s, _ := v.ToString()
-			return rj.ObjV(rj.NewWrapper(rj.StrOf(s)))
-		case "Boolean":
-			// ToBoolean of an object is true; read the primitive through valueOf
-			pv, err := o.Call("valueOf")
-			b := false
-			if err == nil {
-				b, _ = pv.ToBoolean()
+		case "Number", "String", "Boolean":
+			// [[PrimitiveValue]] read by reflection: ToFloat/ToString/valueOf would run
+			// the (possibly overridden) conversion methods of the object under observation
+			if p, ok := primitiveOf(v); ok {
+				return rj.ObjV(rj.NewWrapper(p))
 			}
-			return rj.ObjV(rj.NewWrapper(rj.Boolean(b)))
+			return rj.ObjV(&rj.Obj{Class: class + "?", Props: map[rj.S16]*rj.Prop{}})
 		case "Array":
 			a := rj.NewArray()
 			lv, _ := o.Get("length")
@@ -491,6 +498,9 @@ var spaces = []argSpec{
 	{"NaN", `(NaN)`, func(h *hostModel) rj.Value { return rj.Num(nan) }},
 	{"Number11", `(new Number(11))`, func(h *hostModel) rj.Value { return numWrap(11) }},
 	{"6xE9", `(String.fromCharCode(233,233,233,233,233,233))`, func(h *hostModel) rj.Value { return rj.Str(sixE()) }},
+	{"9+astral", `("123456789"+String.fromCharCode(55357,56832)+"x")`, func(h *hostModel) rj.Value {
+		return rj.Str(append(rj.U("123456789"), 0xD83D, 0xDE00, 'x'))
+	}},
 	{"null", `(null)`, func(h *hostModel) rj.Value { return rj.Nul }},
 	{"object", `({})`, func(h *hostModel) rj.Value { return rj.ObjV(rj.NewObject()) }},
 }
@@ -502,4 +512,59 @@ func specByName(l []argSpec, name string) *argSpec {
 		}
 	}
 	return nil
+}
+
+// primitiveOf reads the [[PrimitiveValue]] of a Number/String/Boolean object from
+// otto's internal representation (object.value) with read-only reflection.
+func primitiveOf(v otto.Value) (p rj.Value, ok bool) {
+	defer func() {
+		if recover() != nil {
+			ok = false
+		}
+	}()
+	obj := reflect.ValueOf(v).FieldByName("value").Elem() // *object
+	inner := obj.Elem().FieldByName("value").Elem()       // what object.value holds
+	switch inner.Kind() {
+	case reflect.String: // stringASCII
+		return rj.StrOf(inner.String()), true
+	case reflect.Ptr: // *stringWide
+		return rj.StrOf(inner.Elem().FieldByName("string").String()), true
+	case reflect.Struct: // Value
+		pv := inner.FieldByName("value").Elem()
+		switch pv.Kind() {
+		case reflect.Bool:
+			return rj.Boolean(pv.Bool()), true
+		case reflect.Float32, reflect.Float64:
+			return rj.Num(pv.Float()), true
+		case reflect.Int, reflect.Int8, reflect.Int16, reflect.Int32, reflect.Int64:
+			return rj.Num(float64(pv.Int())), true
+		case reflect.Uint, reflect.Uint8, reflect.Uint16, reflect.Uint32, reflect.Uint64:
+			return rj.Num(float64(pv.Uint())), true
+		case reflect.String:
+			return rj.StrOf(pv.String()), true
+		}
+	}
+	return rj.Undef, false
+}
+
+func modelGet(holder, key rj.Value) rj.Value {
+	if holder.Kind != rj.Object || key.Kind != rj.String {
+		return rj.Undef
+	}
+	return holder.O.Get(rj.Key(key.S))
+}
+
+// observing is set while the harness itself reads a property of an object of
+// the implementation: logging accessors installed by an environment stay silent.
+var observing bool
+
+func ottoGet(holder, key otto.Value, mode string) rj.Value {
+	if mode != "reviver" || !holder.IsObject() || !key.IsString() {
+		return rj.Undef
+	}
+	k, _ := key.ToString()
+	observing = true
+	v, _ := holder.Object().Get(k)
+	observing = false
+	return fromOtto(v, 0)
 }
